@@ -166,6 +166,8 @@ type env struct {
 	b       *cbytes.Blocks
 	base    []byte
 	mm      *files.MMFile
+	sp      *sparseBuf // backend "sparse": only touched blocks exist
+	byOffs  map[int64]int
 	dir     string
 	fn      string
 
@@ -218,7 +220,10 @@ func (e *env) run() *vstat.Violation {
 			e.size = 4096
 		}
 	}
-	if e.size > 600<<20 {
+	sparse := c.Backend == "sparse"
+	if sparse {
+		e.c.NoStamp = true // blocks are only touched by explicit b ops
+	} else if e.size > 600<<20 {
 		panic(fmt.Sprintf("case asks for a %d byte buffer: generator error", e.size))
 	}
 	e.segs = int(e.size / e.segSize)
@@ -241,6 +246,9 @@ func (e *env) run() *vstat.Violation {
 		}
 		e.mm = mm
 		buf = mm
+	} else if sparse {
+		e.sp = newSparse(e.size, c.BS)
+		buf = e.sp
 	} else {
 		buf = cbytes.NewInMemBytes(int(e.size))
 	}
@@ -286,7 +294,7 @@ func (e *env) run() *vstat.Violation {
 				return v
 			}
 			mode := 3
-			if e.count > 64 {
+			if e.count > 64 && !sparse {
 				mode = 1 + i%2
 			}
 			if v := e.snapshot("after "+where, mode); v != nil {
@@ -298,7 +306,7 @@ func (e *env) run() *vstat.Violation {
 	if v := e.stamps(where); v != nil {
 		return v
 	}
-	if e.size <= 40<<20 {
+	if e.size <= 40<<20 || sparse {
 		if v := e.snapshot(where, 3); v != nil {
 			return v
 		}
@@ -328,8 +336,8 @@ func (e *env) run() *vstat.Violation {
 }
 
 func backendName(c Case) string {
-	if c.Backend == "mmap" {
-		return "mmap"
+	if c.Backend == "mmap" || c.Backend == "sparse" {
+		return c.Backend
 	}
 	return "inmem"
 }
@@ -343,6 +351,9 @@ func (e *env) attach(where string) *vstat.Violation {
 	b := e.b
 	if b.Count() != e.count {
 		return vstat.V("blocks:count", "%s: Count()=%d want segments*bs*8=%d", where, b.Count(), e.count)
+	}
+	if e.sp != nil {
+		return e.attachSparse(where)
 	}
 	base, err := b.Bytes().Buffer(0, int(e.size))
 	if err != nil || int64(len(base)) != e.size {
@@ -362,6 +373,61 @@ func (e *env) attach(where string) *vstat.Violation {
 	}
 	e.offs = offs
 	return nil
+}
+
+// attachSparse examines the geometry of a sample of blocks only (Block() materialises the block); blocks touched
+// later by a b op are examined then. Offsets come from the sparse buffer's own bookkeeping.
+func (e *env) attachSparse(where string) *vstat.Violation {
+	if e.offs == nil {
+		e.offs = make([]int64, e.count)
+		for i := range e.offs {
+			e.offs[i] = -1
+		}
+		e.byOffs = map[int64]int{}
+	}
+	for _, i := range sampleIndexes(e.bs, e.segs, e.count) {
+		blk, err := e.b.Block(i)
+		if err != nil {
+			return vstat.V("blocks:block-error", "%s: Block(%d) failed with %v although 0<=idx<Count=%d", where, i, err, e.count)
+		}
+		if len(blk) != e.bs {
+			return vstat.V("blocks:block-size", "%s: Block(%d) has %d bytes, want the block size %d", where, i, len(blk), e.bs)
+		}
+		if v := e.sparseBlockAt(i, blk, where); v != nil {
+			return v
+		}
+	}
+	return nil
+}
+
+// sparseBlockAt checks the position of one block of a sparse buffer against the headers and all blocks seen so far.
+func (e *env) sparseBlockAt(i int, blk []byte, where string) *vstat.Violation {
+	o := e.sp.offsetOf(blk)
+	bs := int64(e.bs)
+	if o < 0 || o+bs > e.size {
+		return vstat.V("blocks:block-outside-buffer", "%s: Block(%d) is not a range handed out by the buffer inside [0,%d) (offset %d)", where, i, e.size, o)
+	}
+	if s := o / e.segSize; s < int64(e.segs) && o < s*e.segSize+bs {
+		return vstat.V("blocks:block-overlaps-header", "%s: Block(%d) covers [%d,%d) which overlaps the header [%d,%d) of segment %d", where, i, o, o+bs, s*e.segSize, s*e.segSize+bs, s)
+	}
+	if e.offs[i] >= 0 && e.offs[i] != o {
+		return vstat.V("blocks:block-moved", "%s: Block(%d) is now at buffer offset %d, earlier at %d", where, i, o, e.offs[i])
+	}
+	// ranges of the sparse buffer are block-aligned, so two blocks overlap iff they have the same offset
+	if j, ok := e.byOffs[o]; ok && j != i {
+		return vstat.V("blocks:blocks-overlap", "%s: Block(%d) and Block(%d) are both at [%d,%d)", where, i, j, o, o+bs)
+	}
+	e.offs[i] = o
+	e.byOffs[o] = i
+	return nil
+}
+
+// blockBytes is the current content of block idx (its offset must be known).
+func (e *env) blockBytes(idx int) []byte {
+	if e.sp != nil {
+		return e.sp.chunks[e.offs[idx]]
+	}
+	return e.base[e.offs[idx] : e.offs[idx]+int64(e.bs)]
 }
 
 // blockGeometry checks that every in-range block is exactly bs bytes inside the buffer, that the blocks are
@@ -439,7 +505,7 @@ func (e *env) stamps(where string) *vstat.Violation {
 		if g == 0 {
 			continue
 		}
-		blk := e.base[e.offs[idx] : e.offs[idx]+int64(e.bs)]
+		blk := e.blockBytes(idx)
 		for j := range blk {
 			if blk[j] != stampByte(idx, g, j) {
 				return vstat.V("blocks:user-data-overwritten", "%s: byte %d of allocated block %d (buffer offset %d) is %#x, the case wrote %#x: something else wrote into a user block", where, j, idx, e.offs[idx]+int64(j), blk[j], stampByte(idx, g, j))
@@ -472,8 +538,9 @@ func (e *env) markFree(idx int) {
 }
 
 // arrange is one ArrangeBlock call checked against the model.
-func (e *env) arrange(where string) *vstat.Violation {
+func (e *env) arrange(where0 string, call int) *vstat.Violation {
 	idx, err := e.b.ArrangeBlock()
+	where := callWhere{where0, call}
 	if e.nalloc == e.count {
 		e.info.Exhausted = true
 		e.sawExh = true
@@ -509,9 +576,22 @@ func (e *env) arrange(where string) *vstat.Violation {
 	}
 	e.markAlloc(idx)
 	if !e.c.NoStamp {
-		return e.stamp(idx, where)
+		return e.stamp(idx, where.String())
 	}
 	return nil
+}
+
+// callWhere names a call of a bulk op; the text is only built when a violation is reported.
+type callWhere struct {
+	where string
+	call  int
+}
+
+func (w callWhere) String() string {
+	if w.call < 0 {
+		return w.where
+	}
+	return fmt.Sprintf("%s call %d", w.where, w.call)
 }
 
 // stamp fetches the block through the API, checks size and position, and writes a fresh pattern.
@@ -523,7 +603,11 @@ func (e *env) stamp(idx int, where string) *vstat.Violation {
 	if len(blk) != e.bs {
 		return vstat.V("blocks:block-size", "%s: Block(%d) has %d bytes, want the block size %d", where, idx, len(blk), e.bs)
 	}
-	if o := ptrDiff(blk, e.base); o != e.offs[idx] {
+	if e.sp != nil {
+		if v := e.sparseBlockAt(idx, blk, where); v != nil {
+			return v
+		}
+	} else if o := ptrDiff(blk, e.base); o != e.offs[idx] {
 		return vstat.V("blocks:block-moved", "%s: Block(%d) is now at buffer offset %d, earlier at %d", where, idx, o, e.offs[idx])
 	}
 	e.seq++
@@ -534,8 +618,9 @@ func (e *env) stamp(idx int, where string) *vstat.Violation {
 	return nil
 }
 
-func (e *env) free(idx int, where string) *vstat.Violation {
+func (e *env) free(idx int, where0 string, call int) *vstat.Violation {
 	err := e.b.FreeBlock(idx)
+	where := callWhere{where0, call}
 	switch {
 	case idx < 0 || idx >= e.count:
 		if idx < 0 {
@@ -569,14 +654,14 @@ func (e *env) free(idx int, where string) *vstat.Violation {
 func (e *env) step(op Op, where string) *vstat.Violation {
 	switch op.K {
 	case "a":
-		return e.arrange(where)
+		return e.arrange(where, -1)
 	case "fill":
 		n := op.N
 		if n < 0 {
 			n = max(0, e.count-e.nalloc+n+1)
 		}
 		for k := 0; k < n; k++ {
-			if v := e.arrange(fmt.Sprintf("%s call %d", where, k)); v != nil {
+			if v := e.arrange(where, k); v != nil {
 				return v
 			}
 		}
@@ -588,7 +673,19 @@ func (e *env) step(op Op, where string) *vstat.Violation {
 		if p < 0 {
 			p += len(e.alist)
 		}
-		return e.free(e.alist[p], where)
+		return e.free(e.alist[p], where, -1)
+	case "fi":
+		if e.nalloc == 0 {
+			return nil
+		}
+		i := op.N % e.count
+		if i < 0 {
+			i += e.count
+		}
+		for !e.alloc[i] {
+			i = (i + 1) % e.count
+		}
+		return e.free(i, where, -1)
 	case "drain":
 		n := op.N
 		if n < 0 {
@@ -600,7 +697,7 @@ func (e *env) step(op Op, where string) *vstat.Violation {
 			if k%2 == 1 {
 				p = len(e.alist) - 1
 			}
-			if v := e.free(e.alist[p], fmt.Sprintf("%s call %d", where, k)); v != nil {
+			if v := e.free(e.alist[p], where, k); v != nil {
 				return v
 			}
 		}
@@ -615,11 +712,11 @@ func (e *env) step(op Op, where string) *vstat.Violation {
 		for e.alloc[i] {
 			i = (i + 1) % e.count
 		}
-		return e.free(i, where)
+		return e.free(i, where, -1)
 	case "fo":
-		return e.free(e.count+max(op.N, 0), where)
+		return e.free(e.count+max(op.N, 0), where, -1)
 	case "fn":
-		return e.free(-1-max(op.N, 0), where)
+		return e.free(-1-max(op.N, 0), where, -1)
 	case "b":
 		i := op.N % e.count
 		if i < 0 {
@@ -663,6 +760,10 @@ func (e *env) reopen(where string) *vstat.Violation {
 			return vstat.V("blocks:file-size-changed", "%s: the file mapped again has %d bytes, it was created with %d", where, mm.Size(), e.size)
 		}
 		buf = mm
+	} else if e.sp != nil {
+		e.sp = e.sp.clone()
+		e.byOffs = map[int64]int{}
+		buf = e.sp
 	} else {
 		cp := cbytes.NewInMemBytes(int(e.size))
 		dst, _ := cp.Buffer(0, int(e.size))
@@ -682,15 +783,27 @@ func (e *env) reopen(where string) *vstat.Violation {
 // mode bit 1: FreeBlock(i) succeeds <=> i allocated; mode bit 2: ArrangeBlock until exhausted yields the complement.
 func (e *env) snapshot(where string, mode int) *vstat.Violation {
 	e.info.Snapshots++
+	if e.sp != nil {
+		return snapshotProbe(func() cbytes.Buffer { return e.sp.clone() }, e.bs, e.c.Fit, e.count, e.alloc, e.nalloc, where, mode, e.alist)
+	}
 	return snapshotCheck(e.base, e.bs, e.c.Fit, e.count, e.alloc, e.nalloc, where, mode)
 }
 
 func snapshotCheck(base []byte, bs int, fit bool, count int, alloc []bool, nalloc int, where string, mode int) *vstat.Violation {
-	open := func() (*cbytes.Blocks, *vstat.Violation) {
+	return snapshotProbe(func() cbytes.Buffer {
 		cp := cbytes.NewInMemBytes(len(base))
 		dst, _ := cp.Buffer(0, len(base))
 		copy(dst, base)
-		r, err := cbytes.NewBlocks(bs, cp, fit)
+		return cp
+	}, bs, fit, count, alloc, nalloc, where, mode, nil)
+}
+
+// snapshotProbe: mk returns a fresh copy of the bytes. With alist != nil (large sparse geometries) the FreeBlock
+// probe visits every allocated index and a sample of the free ones instead of all indexes (the ArrangeBlock
+// probe determines the complement exactly in any case).
+func snapshotProbe(mk func() cbytes.Buffer, bs int, fit bool, count int, alloc []bool, nalloc int, where string, mode int, alist []int) *vstat.Violation {
+	open := func() (*cbytes.Blocks, *vstat.Violation) {
+		r, err := cbytes.NewBlocks(bs, mk(), fit)
 		if err != nil || r == nil {
 			return nil, vstat.V("blocks:reopen-rejected", "%s: NewBlocks on a copy of the bytes failed: %v", where, err)
 		}
@@ -707,10 +820,34 @@ func snapshotCheck(base []byte, bs int, fit bool, count int, alloc []bool, nallo
 		if v != nil {
 			return v
 		}
-		for i := 0; i < count; i++ {
+		probe := func(i int) *vstat.Violation {
 			err := r.FreeBlock(i)
 			if (err == nil) != alloc[i] {
 				return vstat.V("blocks:reopen-state", "%s: on a copy of the bytes FreeBlock(%d) returned %v, but allocated(%d)=%v in the model: the bytes do not carry the allocation state", where, i, err, i, alloc[i])
+			}
+			return nil
+		}
+		if alist == nil {
+			for i := 0; i < count; i++ {
+				if v := probe(i); v != nil {
+					return v
+				}
+			}
+		} else {
+			// free indexes first (they must be refused while everything else is still allocated), then all allocated
+			for _, i := range sampleIndexes(bs, count/(bs*8), count) {
+				for d := -1; d <= 1; d++ {
+					if j := i + d; j >= 0 && j < count && !alloc[j] {
+						if v := probe(j); v != nil {
+							return v
+						}
+					}
+				}
+			}
+			for _, i := range alist {
+				if v := probe(i); v != nil {
+					return v
+				}
 			}
 		}
 		if r.Available() != count {
